@@ -957,7 +957,7 @@ def X6(ctx: Ctx) -> RuleResult:
                 r.fail(f'{fi.qualname}:@{base}', f'{fi.qualname} is memoised with @{base}: results are shared between equal-but-distinct arguments (equality ignores metadata and identity) and between calls', fi.where)
     r.counts['module-level mutable containers'] = len(mut_globals)
     r.counts['global statements'] = g
-    r.floor('transformer/parser methods', n, 50)
+    r.floor('transformer/parser methods', n, 30)
     # fixture
     fx = ast.parse('class T:\n    def cb(self, x):\n        self.seen.add(x)\n        return x\n').body[0].body[0]
     class _F:
